@@ -60,10 +60,9 @@ def unsortedWritingRanges : List MapRange → List (String × String)
 
 
 
-/-- map ranges that write state in iteration order (S1, S2 of DESIGN §7) -/
-def unsortedWriting : List (String × String) :=
-  [("data/delegation.DelegationStore.LoadState", "blocks"),
-   ("identity.ValidatorStore.ExecuteAllegationTracker", "at.Requests")]
+/-- map ranges that write state in iteration order: none (S1 `ExecuteAllegationTracker at.Requests`
+    and S2 `delegation.LoadState blocks` were repaired by fix: commits, both now sort first) -/
+def unsortedWriting : List (String × String) := []
 
 /-! ### Expected tables (reviewed by reading the code at the pinned commit; a row that appears,
     disappears or changes in the regenerated table breaks the corresponding obligation and has to
@@ -78,8 +77,8 @@ def unsortedWriting : List (String × String) :=
     * not on a consensus path: app.rpcStarter, data.ContractData.Update/UpdateByJSONData,
       balance.Balance.String, storage.*.Dump / DumpState, storage.cacheSession.Iterate (no caller),
       utils.PrintStringMap (logging)
-    * writes state in map order: identity.ExecuteAllegationTracker at.Requests and
-      delegation.LoadState blocks, see `unsortedWriting` below -/
+    * collect keys, sort, then write (after the fix: commits for S1/S2):
+      identity.ExecuteAllegationTracker at.Requests, delegation.LoadState blocks -/
 def mapRanges : List MapRange := [
   ⟨"app.App.rpcStarter", "services", false, false⟩,
   ⟨"app.handleBlockRewards", "kvMap", true, false⟩,
@@ -88,12 +87,12 @@ def mapRanges : List MapRange := [
   ⟨"data.StorageRouter.WithState", "s.router", false, false⟩,
   ⟨"data/balance.Balance.String", "b.Amounts", false, false⟩,
   ⟨"data/balance.CurrencySet.GetCurrencies", "c.nameMap", false, false⟩,
-  ⟨"data/delegation.DelegationStore.LoadState", "blocks", false, true⟩,
+  ⟨"data/delegation.DelegationStore.LoadState", "blocks", true, false⟩,
   ⟨"data/evidence.EvidenceStore.CleanTracker", "at.Requests", true, false⟩,
   ⟨"external_apps.RegisterExtApp", "extAppData.ExtServiceMap", false, false⟩,
   ⟨"external_apps.RegisterExtApp", "extAppData.ExtStores", false, false⟩,
   ⟨"identity.ValidatorStore.CheckMaliciousValidators", "cv.Addresses", true, false⟩,
-  ⟨"identity.ValidatorStore.ExecuteAllegationTracker", "at.Requests", false, true⟩,
+  ⟨"identity.ValidatorStore.ExecuteAllegationTracker", "at.Requests", true, false⟩,
   ⟨"identity.ValidatorStore.GetEndBlockUpdate", "vs.lastActive", true, false⟩,
   ⟨"storage.KeyValue.Dump", "texts", false, false⟩,
   ⟨"storage.KeyValueSession.Dump", "texts", false, false⟩,
